@@ -1320,6 +1320,114 @@ func timeCases(res *runResult, tb, pb *strings.Builder, nt, np *int) {
 	*np++
 }
 
+// e2eCases: per shard of a run with early_return off that ended with the final flush — the event
+// sequence, the outcome of every export of the shard (in send order), and per waiter whose responses
+// were all delivered the responses it really received.  Coq recomputes the model's sends, derives
+// the responses of Batch/EndToEnd.v and compares them (as multisets) with the real ones.
+func e2eCases(res *runResult, sb *strings.Builder, n *int) {
+	p := res.plan
+	if p.Cfg.Early || res.hang != "" {
+		return
+	}
+	depth := 1
+	if p.Cfg.Signal == 2 {
+		depth = 2
+	}
+	sk := res.sink
+	sk.mu.Lock()
+	defer sk.mu.Unlock()
+	reqByID := map[int]*reqPlan{}
+	for _, rp := range p.Reqs {
+		reqByID[rp.ID] = rp
+	}
+	byShard := map[int][]cbp.VerifEvent{}
+	var order []int
+	for _, e := range res.log {
+		switch e.Kind {
+		case "recv", "timer", "shutdown", "send":
+			if _, ok := byShard[e.Shard]; !ok {
+				order = append(order, e.Shard)
+			}
+			byShard[e.Shard] = append(byShard[e.Shard], e)
+		}
+	}
+	sort.Ints(order)
+	for _, sh := range order {
+		var es, errs []string
+		shut := false
+		vids := map[int]int{}     // export vid -> send index within the shard
+		tuplesOf := map[int]int{} // waiter -> number of tuples addressed to it
+		errOfVid := map[int]string{}
+		for _, e := range byShard[sh] {
+			switch e.Kind {
+			case "recv":
+				var id int
+				fmt.Sscan(e.DataID, &id)
+				es = append(es, fmt.Sprintf("R%d %s %d %d", depth, ForestString(reqByID[id].forest), labelN(e.Ctx), e.Waiter))
+			case "timer":
+				es = append(es, fmt.Sprintf("@Timer %d", depth))
+			case "shutdown":
+				shut = true
+			case "send":
+				vids[e.Export] = len(errs)
+				er := "None"
+				for _, ex := range sk.exports {
+					if ex.Data == e.Req && ex.Err != nil {
+						er = fmt.Sprintf("Some %d", ex.K+1)
+					}
+				}
+				errOfVid[e.Export] = er
+				errs = append(errs, er)
+				for _, t := range e.Tuples {
+					tuplesOf[t.Waiter]++
+				}
+			}
+		}
+		if !shut {
+			continue
+		}
+		got := map[int][]string{}
+		delivered := map[int]int{}
+		for _, e := range res.log {
+			if e.Kind != "respond" {
+				continue
+			}
+			if _, mine := vids[e.Export]; !mine {
+				continue
+			}
+			if e.Done {
+				delivered[e.Waiter]++
+				er := errOfVid[e.Export]
+				if er != "None" {
+					er = "(" + er + ")"
+				}
+				got[e.Waiter] = append(got[e.Waiter], fmt.Sprintf("{| r_err := %s; r_count := %d |}", er, e.Num))
+			}
+		}
+		var ws []int
+		for w, k := range tuplesOf {
+			if w != 0 && delivered[w] == k {
+				ws = append(ws, w)
+			}
+		}
+		sort.Ints(ws)
+		if len(ws) == 0 {
+			continue
+		}
+		var wr []string
+		for _, w := range ws {
+			wr = append(wr, fmt.Sprintf("(%d, [%s])", w, strings.Join(got[w], "; ")))
+		}
+		timer := p.Cfg.TimeoutMs != 0 && p.Cfg.SendSize != 0
+		if *n > 0 {
+			sb.WriteString(";\n")
+		}
+		fmt.Fprintf(sb, " e2e%d {| send_size := %d; max_size := %d; timer := %v |} [%s] [%s] [%s]", depth,
+			p.Cfg.SendSize, p.Cfg.MaxSize, timer, strings.Join(es, "; "), strings.Join(errs, "; "), strings.Join(wr, "; "))
+		*n++
+	}
+}
+
 func runSys(r *Rng, n int, focus, replay string, out *Output) {
 	var sb strings.Builder
 	sb.WriteString(`Definition case_t := {d : nat & (cfg * list (ev d) * list (send d) * list (bool * N))%type}.
@@ -1347,6 +1455,13 @@ Definition sys_cases : list case_t := [
 	tb.WriteString("Definition time_cases : list (cfg * N * N * N * list (N * ev 1)) := [\n")
 	pb.WriteString("Definition pair_cases : list (N * N * list (N * N)) := [\n")
 	ntime, npair := 0, 0
+	var eb strings.Builder
+	eb.WriteString(`Definition e2e_t := {d : nat & (cfg * list (ev d) * list (option N) * list (N * list resp))%type}.
+Definition e2e1 (cf : cfg) (evs : list (ev 1)) (errs : list (option N)) (ws : list (N * list resp)) : e2e_t := existT _ 1%nat (cf, evs, errs, ws).
+Definition e2e2 (cf : cfg) (evs : list (ev 2)) (errs : list (option N)) (ws : list (N * list resp)) : e2e_t := existT _ 2%nat (cf, evs, errs, ws).
+Definition e2e_cases : list e2e_t := [
+`)
+	ne2e := 0
 	stats := map[string]int{}
 	for i := 0; i < n; i++ {
 		forceTrickle = focus == "C09" && i%20 == 7
@@ -1362,6 +1477,9 @@ Definition sys_cases : list case_t := [
 			ltsCases(res, &lb, &nlts)
 			if focus == "C09" {
 				timeCases(res, &tb, &pb, &ntime, &npair)
+			}
+			if focus == "C06" {
+				e2eCases(res, &eb, &ne2e)
 			}
 		}
 		kind := fmt.Sprintf("signal=%d early=%v meta=%v shutdown=%s trickle=%v", p.Cfg.Signal, p.Cfg.Early, len(p.Cfg.MetaKeys) > 0, p.Cfg.Shutdown, p.Trickle)
@@ -1530,7 +1648,33 @@ Print time_propfail.
 		stats["time_cases"] = ntime
 		stats["pair_cases"] = npair
 	case "C06":
-		out.Lists = append(out.Lists, "systuple_mismatch", "systuple_propfail", "wait_mismatch")
+		out.Lists = append(out.Lists, "systuple_mismatch", "systuple_propfail", "wait_mismatch", "e2e_mismatch", "e2e_propfail")
+		eb.WriteString("\n].\n")
+		out.Coq.WriteString(eb.String())
+		out.Coq.WriteString(`(* the composition of Batch/EndToEnd.v on real runs: the responses each caller really received are, as a multiset,
+   the responses the model derives from the shard's history and the real export outcomes (e2e_mismatch); and the
+   property itself on the real responses: they cover exactly the caller's items and replaying them through the
+   caller's loop returns an error iff one of them failed (e2e_propfail) *)
+Definition resp_eqb (a b : resp) : bool :=
+  Z.eqb (r_count a) (r_count b) && match r_err a, r_err b with Some x, Some y => N.eqb x y | None, None => true | _, _ => false end.
+Definition e2e_check (c : e2e_t) : bool :=
+  let '(existT _ d (cf, evs, errs, ws)) := c in
+  let es := snd (run d cf (init d) (evs ++ [Final])) in
+  forallb (fun wr : N * list resp => perm_eqb resp_eqb (responses d (fun k => nth k errs None) (fst wr) es) (snd wr)) ws.
+Definition e2e_prop (c : e2e_t) : bool :=
+  let '(existT _ d (cf, evs, errs, ws)) := c in
+  forallb (fun wr : N * list resp =>
+    Z.eqb (total (snd wr)) (Z.of_N (recv_for d (fst wr) evs)) &&
+    match wait_run (Z.of_N (recv_for d (fst wr) evs)) (map GotResp (snd wr)) with
+    | Returned errs false => list_eqb N.eqb errs (failures (snd wr))
+    | _ => false
+    end) ws.
+Definition e2e_mismatch := Eval vm_compute in failing e2e_check e2e_cases.
+Definition e2e_propfail := Eval vm_compute in failing e2e_prop e2e_cases.
+Print e2e_mismatch.
+Print e2e_propfail.
+`)
+		stats["e2e_cases"] = ne2e
 	case "C10":
 		out.Lists = append(out.Lists, "key_mismatch", "key_propfail", "adm_propfail")
 	case "C11":
